@@ -12,7 +12,7 @@ use std::collections::BTreeMap;
 
 use sierradb::IterDirection;
 use sierradb::database::Database;
-use vpc::model::{Exp, MEvent, MTxn, Model, Pid};
+use vpc::model::{Exp, MEvent, MNewEvent, MTxn, Model, Pid};
 use vpc::{Args, Report, Rng, Value, json};
 
 use crate::hooks;
@@ -170,6 +170,47 @@ async fn run_history(run: &mut Run<'_>, args: &Args) {
                 run.viol(format!("{}:after-reopen:{}:{}", cfg.prop, f.api, f.class), format!("after reopen: {}: {}", f.api, f.what));
             }
             continue;
+        }
+        // ---- pipelined pair (C02): a valid append A and, right behind it without waiting, an append B to the
+        // same stream under ANOTHER partition key (same partition) expecting exactly the version A produces.
+        // Whichever of the two the writer handles first, A is valid and B is not (behind A its key mismatches, in
+        // front of A its version is wrong) - but B is validated while A's event may still be unsynced.
+        if cfg.prop == "C02" && rng.chance(1, 7) && !model.streams.is_empty() {
+            let cand: Vec<(String, u128, Pid, u64)> = model.streams.iter().map(|((_, s), st)| (s.clone(), st.key, st.events[0].0, st.events.len() as u64 - 1)).collect();
+            let (stream, pk, pid, v) = cand[rng.usize_below(cand.len())].clone();
+            let hash = hash_of_key(pk);
+            let foreign = pk ^ 1; // same embedded partition hash, another key
+            let a_exp = if rng.chance(1, 2) { Exp::Exact(v) } else { Exp::Any };
+            let ea = MNewEvent { event_id: tgen.ids.with_hash(&mut rng, hash), stream: stream.clone(), expected: a_exp, name: "PA".into(), timestamp: 1_700_000_000_000_000_000, metadata: vec![], payload: rng.bytes(24) };
+            let eb = MNewEvent { event_id: tgen.ids.with_hash(&mut rng, hash), stream: stream.clone(), expected: Exp::Exact(v + 1), name: "PB".into(), timestamp: 1_700_000_000_000_000_000, metadata: vec![], payload: rng.bytes(24) };
+            let ta = MTxn { partition_key: pk, partition_id: pid, txn_id: tgen.ids.txn_id(&mut rng, true), events: vec![ea], expected_seq: Exp::Any, confirmation_count: 0 };
+            let tb = MTxn { partition_key: foreign, partition_id: pid, txn_id: tgen.ids.txn_id(&mut rng, true), events: vec![eb], expected_seq: Exp::Any, confirmation_count: 0 };
+            if let (Ok(sa), Ok(sb), true, true) = (to_store_txn(&ta), to_store_txn(&tb), model.check(&ta).is_ok(), model.check(&tb).is_err()) {
+                let (ra, rb) = tokio::join!(db.append_events(sa), db.append_events(sb));
+                run.rep.count("pipelined_pairs", 1);
+                run.ops.push(json!({"op": "pipelined-pair", "a": txn_json(&ta), "b": txn_json(&tb),
+                                    "store_a": match &ra { Ok(r) => format!("Ok seq {}", r.first_partition_sequence), Err(e) => format!("Err {e}") },
+                                    "store_b": match &rb { Ok(r) => format!("Ok seq {}", r.first_partition_sequence), Err(e) => format!("Err {e}") }}));
+                if let Ok(r) = &rb {
+                    run.viol("C02:invalid-append-accepted:partition-key-mismatch:pipelined-behind-another-append".into(), format!("store accepted (seq {}) an append to stream {stream} under a partition key other than the stream's, sent right behind a valid append to that stream", r.first_partition_sequence));
+                    break;
+                }
+                match &ra {
+                    Ok(r) => {
+                        let a = model.apply(&ta).expect("model accepted");
+                        acks += 1;
+                        if a.first_seq != r.first_partition_sequence || a.last_seq != r.last_partition_sequence {
+                            run.viol("C02:accepted-with-wrong-numbers:pipelined".into(), format!("pipelined append got sequence {}, the model assigns {}", r.first_partition_sequence, a.first_seq));
+                            break;
+                        }
+                    }
+                    Err(e) => {
+                        run.viol(format!("C02:valid-append-rejected:{}:pipelined-in-front-of-an-invalid-append", write_error_class(e)), format!("model accepts but the store refused: {e}"));
+                        break;
+                    }
+                }
+                continue;
+            }
         }
         // ---- append ------------------------------------------------------------------
         let mut t = tgen.txn(&mut rng, &model, &cfg.genopts);
